@@ -146,21 +146,27 @@ def body_cli(case, rec):
     rec.note(case, nontrivial(cl), cl)
     asm = conv.mk_assembly("x", case["scaffolds"], header=case["header"])
     agp = fmt(asm, "agp")
+    # the format is taken from the file extension, in any letter case (CURATED.TPF, in.Agp)
+    ext = {"lower": ("agp", "tpf"), "UPPER": ("AGP", "TPF"), "Mixed": ("Agp", "tPF")}[case.get("ext", "lower")]
     d = remap.scratch_dir("vf-c05-")
     try:
-        (d / "in.agp").write_text(agp)
-        r1 = remap.run_cli_inprocess([d / "in.agp", "-o", d / "mid.tpf"], script="asm_format")
+        (d / f"in.{ext[0]}").write_text(agp)
+        r1 = remap.run_cli_inprocess([d / f"in.{ext[0]}", "-o", d / f"mid.{ext[1]}"], script="asm_format")
         if r1.exit_code != 0:
-            raise Violation(f"asm-format AGP->TPF failed: {r1.exception!r}")
-        r2 = remap.run_cli_inprocess([d / "mid.tpf", "-o", d / "back.agp"], script="asm_format")
+            raise Violation(f"asm-format AGP->TPF (in.{ext[0]} -o mid.{ext[1]}) failed: {r1.exception!r}")
+        mid = (d / f"mid.{ext[1]}").read_text()
+        r2 = remap.run_cli_inprocess([d / f"mid.{ext[1]}", "-o", d / f"back.{ext[0]}"], script="asm_format")
         if r2.exit_code != 0:
-            raise Violation(f"asm-format TPF->AGP failed: {r2.exception!r}")
-        back = (d / "back.agp").read_text()
+            raise Violation(f"asm-format TPF->AGP (mid.{ext[1]} -o back.{ext[0]}) failed: {r2.exception!r}")
+        back = (d / f"back.{ext[0]}").read_text()
     finally:
         remap.rmtree(d)
     want = fmt(conv.mk_assembly("x", norm(case["scaffolds"], with_tags=False), header=case["header"]), "agp")
     if back != want:
         raise Violation(f"AGP -> TPF -> AGP changed more than the tags: {first_diff(want, back)}")
+    want_mid = fmt(conv.mk_assembly("x", norm(case["scaffolds"], with_tags=False), header=case["header"]), "tpf")
+    if mid != want_mid:
+        raise Violation(f"asm-format in.{ext[0]} -o mid.{ext[1]}: the intermediate file is not the TPF rendering: {first_diff(want_mid, mid)}")
     # an explicit --format wins over the output file's extension
     want_tpf = fmt(conv.mk_assembly("x", norm(case["scaffolds"], with_tags=False), header=case["header"]), "tpf")
     d = remap.scratch_dir("vf-c05-")
@@ -437,7 +443,7 @@ SUBS = [
         budget={"quick": 8000, "thorough": 150000}, desc="parse_agp(format_agp(a)) = a; format(parse(text)) = text"),
     Sub("tpf", kind="hyp", strategy=lambda: assembly_cases(tpf=True), body=body_tpf,
         budget={"quick": 8000, "thorough": 150000}, desc="same through TPF (no tags; '?' strands raise or round-trip)"),
-    Sub("cli", kind="hyp", strategy=lambda: st.builds(lambda c, k: dict(c, stdin=k == 0), assembly_cases(tpf=True).filter(lambda c: all(r[0] == "G" or r[4] != 0 for _n, rows in c["scaffolds"] for r in rows)), st.integers(0, 7)),
+    Sub("cli", kind="hyp", strategy=lambda: st.builds(lambda c, k, e: dict(c, stdin=k == 0, ext=e), assembly_cases(tpf=True).filter(lambda c: all(r[0] == "G" or r[4] != 0 for _n, rows in c["scaffolds"] for r in rows)), st.integers(0, 7), st.sampled_from(["lower", "lower", "UPPER", "Mixed"])),
         body=body_cli, budget={"quick": 320, "thorough": 5000}, desc="asm-format AGP -> TPF -> AGP"),
     Sub("lines", kind="hyp", strategy=line_cases, body=body_lines,
         budget={"quick": 8000, "thorough": 150000}, desc="corrupted lines: error, or exactly one row per data line in the scaffold the line names"),
